@@ -25,7 +25,11 @@ CONSTANTS JunkMode,   \* "none" | "quadrants" | "all": which corrupted squares a
 VARIABLE kase
 \* One initial state per (square variant, axis, index): every case is one step from its seed
 \* (this only spreads the enumeration over TLC's workers).
-Seed(junk, ax, i) == [cls |-> "init", junk |-> junk, axis |-> ax, index |-> i]
+\* jkind / jline say how the junk cells are concretised: "random" = unrelated bytes; "permuted" = the junk
+\* cells are the whole parity half of the first-quadrant line jline, recomputed by the block producer from a
+\* permutation of that line's data shares (so the line reconstructed from its parity half has valid
+\* namespaces that are out of order).
+Seed(v, ax, i) == [cls |-> "init", junk |-> v.junk, jkind |-> v.kind, jline |-> v.line, axis |-> ax, index |-> i]
 
 QuadrantReps == {<<0, K - 1>>, <<K - 1, K>>, <<W - 1, 0>>, <<K, W - 1>>}
 JunkSets == {{}} \cup
@@ -49,18 +53,26 @@ BaseSets == {Q \in SUBSET Slots : Cardinality(Q) >= K - 1 /\ Q # {}}
 Bases == {<<kase.axis, kase.index, P>> : P \in BaseSets}
 
 Mk(cls, mut, junk, b, pa, f) ==
-    [cls |-> cls, mut |-> mut, junk |-> junk, baxis |-> b[1], bindex |-> b[2], bP |-> b[3], bpa |-> pa, f |-> f]
+    [cls |-> cls, mut |-> mut, junk |-> junk, jkind |-> kase.jkind, jline |-> kase.jline, baxis |-> b[1], bindex |-> b[2], bP |-> b[3], bpa |-> pa, f |-> f]
 
-Init == kase \in {Seed(junk, ax, i) : junk \in JunkSets, ax \in Axes, i \in Idx}
+HalfLine(ax, i) == {<<RowOf(ax, i, p), ColOf(ax, i, p)>> : p \in K..(W - 1)}
+RandomVariants == {[junk |-> j, kind |-> "random", line |-> <<"-", 0>>] : j \in JunkSets}
+PermVariants   == IF JunkMode = "none" THEN {}
+                  ELSE {[junk |-> HalfLine("row", 0), kind |-> "permuted", line |-> <<"row", 0>>],
+                        [junk |-> HalfLine("col", K - 1), kind |-> "permuted", line |-> <<"col", K - 1>>]}
+\* permuted squares: only the lines they corrupt (the completeness cases and their edits)
+Init == kase \in {Seed(v, ax, i) : v \in RandomVariants, ax \in Axes, i \in Idx}
+             \cup {Seed(v, ax, i) : v \in {x \in PermVariants : TRUE}, ax \in Axes, i \in Idx}
+Live(k) == k.jkind = "random" \/ ~LineCodeword(k.junk, k.axis, k.index)
 
 Plain ==
-    /\ kase.cls = "init"
+    /\ kase.cls = "init" /\ Live(kase)
     /\ \E junk \in {kase.junk}, b \in Bases : \E pa \in PaxAssignments(b[3]) :
          kase' = Mk("plain", <<"none">>, junk, b, pa, Base(b[1], b[2], b[3], pa))
 
 \* edits that move proven shares between slots
 Permute ==
-    /\ kase.cls = "init"
+    /\ kase.cls = "init" /\ Live(kase)
     /\ \E junk \in {kase.junk}, b \in Bases : \E pa \in PaxAssignments(b[3]) :
          LET f == Base(b[1], b[2], b[3], pa) P == b[3] IN
          \/ \E x \in P, y \in P :
@@ -77,7 +89,7 @@ Permute ==
 
 \* a slot filled with a genuinely proven share of another line
 Substitute ==
-    /\ kase.cls = "init"
+    /\ kase.cls = "init" /\ Live(kase)
     /\ \E junk \in {kase.junk}, b \in Bases : \E pa \in PaxAssignments(b[3]) :
          LET f == Base(b[1], b[2], b[3], pa) IN
          \E s \in b[3], j \in Idx \ {b[2]}, pax \in Axes :
@@ -86,7 +98,7 @@ Substitute ==
 
 \* altered share / leaf namespace / proof position of one slot
 AlterSlot ==
-    /\ kase.cls = "init"
+    /\ kase.cls = "init" /\ Live(kase)
     /\ \E junk \in {kase.junk}, b \in Bases : \E pa \in PaxAssignments(b[3]) :
          LET f == Base(b[1], b[2], b[3], pa) IN
          \E s \in b[3] :
@@ -101,7 +113,7 @@ AlterSlot ==
 
 \* relabelled header fields
 Relabel ==
-    /\ kase.cls = "init"
+    /\ kase.cls = "init" /\ Live(kase)
     /\ \E junk \in {kase.junk}, b \in Bases : \E pa \in PaxAssignments(b[3]) :
          LET f == Base(b[1], b[2], b[3], pa) IN
          \/ \E j \in (0..W) \ {b[2]} : kase' = Mk("relabel", <<"index", j>>, junk, b, pa, [f EXCEPT !.index = j])
